@@ -244,11 +244,76 @@ Definition prop_twin (args : list bytes) : bytes :=
   | _ => bs "badargs"
   end.
 
+(* ---------- repeated / case-variant join_authorised_via_users_server members (F49) ---------- *)
+(* ev is twin (well-formed, no member that could be taken for join_authorised_via_users_server)
+   with such members added to the content *)
+Definition via_extension (twin ev : json) : bool :=
+  match twin, ev with
+  | JObj mt, JObj me =>
+      bytes_eqb (concat_bytes (map (fun kv => fst kv ++ [0]) mt)) (concat_bytes (map (fun kv => fst kv ++ [0]) me))
+      && forallb (fun kv => if bytes_eqb (fst kv) (bs "content") then true
+                            else match assoc_first (fst kv) me with Some v => json_eqb v (snd kv) | None => false end) mt
+      && match assoc_first (bs "content") mt, assoc_first (bs "content") me with
+         | Some (JObj ct), Some (JObj ce) =>
+             forallb (fun kv => negb (via_like (fst kv))) ct
+             && json_eqb (JObj (filter (fun kv => negb (via_like (fst kv))) ce)) (JObj ct)
+         | _, _ => false
+         end
+  | _, _ => false
+  end.
+
+(* prefix of s before the first occurrence of pat *)
+Fixpoint cut_at (pat s : bytes) : bytes :=
+  match s with
+  | [] => []
+  | c :: r => if is_prefix pat s then [] else c :: cut_at pat r
+  end.
+
+(* [ver; event json; twin json; lookup; mode; valid servers...; observable] *)
+Definition prop_dup (args : list bytes) : bytes :=
+  match args with
+  | ver :: ev :: twin :: lk :: mode :: rest =>
+      match rev rest with
+      | obs :: rvalids =>
+          let valids := rev rvalids in
+          match parse_json ev, parse_json twin with
+          | Some j, Some jt =>
+              if wf_event ver jt && lookup_consistent jt lk && via_extension jt j then
+                let reading :=
+                  if s_is_member jt && bytes_eqb (s_membership jt) (bs "join") && spec_restricted_joins ver
+                  then match jget (bs "content") j with Some (JObj ce) => auth_authoriser ce | _ => AUnparseable end
+                  else ANobody in
+                let base := required_spec ver jt in
+                let expect_req := fun req =>
+                  let verr := negb (bytes_eqb mode (bs "ok")) in
+                  let want := verdict (negb verr && forallb (fun s => mem_bytes s valids) req) ++ nl ++
+                              bs "asked " ++ join_bytes (bs ",") (map hex_of_bytes (needed_set req))
+                              ++ bs " ts=" ++ print_dec (s_ts jt) ++ (if required_rule_strict ver then bs " strict" else bs " lax") in
+                  let got := cut_at (bs " msg=") obs in
+                  if bytes_eqb got want then bs "ok"
+                  else bs "FAIL-AUTHORISER-READING want=" ++ want ++ bs " got=" ++ got in
+                let expect_err :=
+                  if is_prefix (bs "err" ++ nl) obs then bs "ok"
+                  else bs "FAIL-AUTHORISER-READING want=err (the auth rules cannot authorise this event) got=" ++ cut_at (bs " msg=") obs in
+                match reading with
+                | AUnparseable => expect_err
+                | ANobody => expect_req base
+                | AUser u => if proper_id 64 u then expect_req (base ++ server_of u) else expect_err
+                end
+              else bs "FAIL generator: not a via-extension of a well-formed twin"
+          | _, _ => bs "FAIL generator: unparsable"
+          end
+      | [] => bs "badargs"
+      end
+  | _ => bs "badargs"
+  end.
+
 Definition ops_C06 : list (bytes * (list bytes -> bytes)) :=
   [ (bs "C06.verify", run_verify);
     (bs "C06.keyring", run_keyring);
     (bs "C06.verify_pseudoid", run_verify_pseudoid);
     (bs "C06.verify_twin", run_verify_twin);
     (bs "C06.prop.twin", prop_twin);
+    (bs "C06.prop.dup", prop_dup);
     (bs "C06.prop.verify", prop_verify);
     (bs "C06.prop.keyring", prop_keyring) ].
